@@ -35,6 +35,12 @@ theorem bilT_eq_sum_Nf (r : List K) (n : ℕ) (u v : ℕ → K) :
   refine Finset.sum_congr rfl fun j _ => ?_
   ring
 
+theorem bilT_symm (r : List K) (n : ℕ) (u v : ℕ → K) : bilT r n u v = bilT r n v u := by
+  unfold bilT
+  rw [Finset.sum_comm]
+  refine Finset.sum_congr rfl fun i _ => Finset.sum_congr rfl fun j _ => ?_
+  rw [adiff_comm]; ring
+
 /-- if `u` is monic and every equation 1..n-1 either holds or carries a zero weight, then
     `⟨u,u⟩ = Σ_j u_j r_j` -/
 theorem bilT_self_of_normal (r : List K) (n : ℕ) (u : ℕ → K) (hn : 0 < n) (h0 : u 0 = 1)
